@@ -210,3 +210,48 @@ func VerifH_C05_ScalarAndVectorOperands() {
 	}
 	vCover("C05-scalar-vector-reached")
 }
+
+// Scale recorded by the scale-invariant (BFV-style) product: documented as s0·s1·(-Q_level)^-1 mod t, with Q_level the
+// modulus at the level the product is carried out.  The helper is decided for a symbolic level (every level of the
+// chain); the evaluator methods are run at every level on zero-valued operands (bookkeeping only: the scale-invariant
+// data path - exact lift to the extended basis, integer tensor, division by Q - is not a polynomial identity modulo
+// the primes and is outside the algebraic model).
+func VerifH_C05_ScaleInvariantRecordedScale() {
+	vConfig("algebraic-samplers", "1")
+	c := VerifSetup_Ctx(vIsAlgebraic())
+	params := c.Params
+	t := params.PlaintextModulus()
+	bt := new(big.Int).SetUint64(t)
+	want := func(s0, s1 uint64, level int) uint64 {
+		q := new(big.Int).Mod(params.RingQ().AtLevel(level).Modulus(), bt).Uint64()
+		return s0 % t * (s1 % t) % t * vInvMod(t-q, t) % t
+	}
+	c.Kgen.GenSecretKey(c.Sk)
+	rlk := c.Kgen.GenRelinearizationKeyNew(c.Sk)
+	eval := c.EvalSI.WithKey(rlwe.NewMemEvaluationKeySet(rlk))
+	for lvl := 0; lvl <= params.MaxLevel(); lvl++ {
+		tag := "L" + vItoa(lvl)
+		a, b := NewCiphertext(params, 1, lvl), NewCiphertext(params, 1, lvl)
+		a.Scale, b.Scale = params.NewScale(3), params.NewScale(5)
+		out := NewCiphertext(params, 2, lvl)
+		vAssert(eval.Mul(a, b, out) == nil, tag+"-scale-invariant-Mul-no-error")
+		vAssert(out.Degree() == 2 && out.Level() == lvl, tag+"-scale-invariant-Mul-degree-level")
+		vAssert(out.Scale.Uint64() == want(3, 5, lvl), tag+"-scale-invariant-Mul-records-the-documented-scale")
+		out1 := NewCiphertext(params, 1, lvl)
+		vAssert(eval.MulRelin(a, b, out1) == nil, tag+"-scale-invariant-MulRelin-no-error")
+		vAssert(out1.Degree() == 1 && out1.Level() == lvl, tag+"-scale-invariant-MulRelin-degree-level")
+		vAssert(out1.Scale.Uint64() == want(3, 5, lvl), tag+"-scale-invariant-MulRelin-records-the-documented-scale")
+	}
+	level := vInt("level")
+	vAssume(level >= 0 && level <= params.MaxLevel())
+	for l := 0; l <= params.MaxLevel(); l++ {
+		if level != l { // case split of the symbolic level (the modulus table is indexed by it)
+			continue
+		}
+		for _, sc := range [][2]uint64{{1, 1}, {3, 5}, {t - 1, 2}} {
+			got := MulScaleInvariant(params, params.NewScale(sc[0]), params.NewScale(sc[1]), l)
+			vAssert(got.Uint64() == want(sc[0], sc[1], l), "MulScaleInvariant-is-s0-s1-over-minus-Q-at-the-level")
+		}
+	}
+	vCover("C05-scale-invariant-scale-reached")
+}
